@@ -5,7 +5,7 @@ import ScadVerif.Model.Pt
 import ScadVerif.Gen.Mt4Cof
 namespace ScadVerif
 
-structure Mt4 (α : Type) where
+@[ext] structure Mt4 (α : Type) where
   x : Pt4 α
   y : Pt4 α
   z : Pt4 α
